@@ -125,3 +125,28 @@ pub fn provider(has_glyf: bool, dotted_circle_gid: u16) -> Provider {
     Provider { cmap, head, maxp, hhea, hmtx, has_glyf, corrupt_vhea: false }
 }
 
+
+// ---------------------------------------------------------------------------
+// Stubs that take the layout caches out of the formula (used with `#[kani::stub]`, `-Z stubbing`).
+// `ReadScope::read_cache` memoises `self.read::<T>()` in a std HashMap keyed by the scope's base
+// offset; CBMC does not get through std's HashMap (DESIGN.md section 4). The stub performs the
+// same read without memoising it - the cache is semantically transparent (that transparency is
+// what property C03 states and is outside these harnesses). `RandomState::new` (called by
+// `HashMap::new` when the cache object is built) is replaced by a constant state.
+// ---------------------------------------------------------------------------
+use allsorts::binary::read::{ReadBinaryDep, ReadCache, ReadScope};
+use std::rc::Rc;
+
+pub fn stub_read_cache<'a, T>(
+    this: &ReadScope<'a>,
+    _cache: &mut ReadCache<T::HostType<'a>>,
+) -> Result<Rc<T::HostType<'a>>, ParseError>
+where
+    T: 'static + ReadBinaryDep<Args<'a> = ()>,
+{
+    Ok(Rc::new(this.read_dep::<T>(())?))
+}
+
+pub fn stub_random_state() -> std::collections::hash_map::RandomState {
+    unsafe { std::mem::transmute::<[u64; 2], std::collections::hash_map::RandomState>([1, 2]) }
+}
